@@ -14,3 +14,23 @@ fn vchar_is_alphabetic(c: char) -> (r: bool)
 fn vchar_is_ascii_digit(c: char) -> (r: bool)
     ensures r == ('0' <= c && c <= '9')
 { c.is_ascii_digit() }
+// other std predicates (only used if a refactoring of /repo reaches for them): Unicode classes left uninterpreted
+// outside ASCII; on ASCII they are the usual sets (validated natively over all 128 code points each run)
+pub uninterp spec fn spec_non_ascii_whitespace(c: char) -> bool;
+pub uninterp spec fn spec_non_ascii_numeric(c: char) -> bool;
+pub open spec fn spec_is_whitespace(c: char) -> bool {
+    if (c as u32) < 128 { c == ' ' || ('\x09' <= c && c <= '\x0d') } else { spec_non_ascii_whitespace(c) }
+}
+pub open spec fn spec_is_numeric(c: char) -> bool { if (c as u32) < 128 { '0' <= c && c <= '9' } else { spec_non_ascii_numeric(c) } }
+#[verifier::external_body]
+fn vchar_is_whitespace(c: char) -> (r: bool) ensures r == spec_is_whitespace(c) { c.is_whitespace() }
+#[verifier::external_body]
+fn vchar_is_numeric(c: char) -> (r: bool) ensures r == spec_is_numeric(c) { c.is_numeric() }
+#[verifier::external_body]
+fn vchar_is_alphanumeric(c: char) -> (r: bool) ensures r == (spec_is_alphabetic(c) || spec_is_numeric(c)) { c.is_alphanumeric() }
+#[verifier::external_body]
+fn vchar_is_ascii_alphabetic(c: char) -> (r: bool) ensures r == (('A' <= c && c <= 'Z') || ('a' <= c && c <= 'z')) { c.is_ascii_alphabetic() }
+#[verifier::external_body]
+fn vchar_is_ascii_alphanumeric(c: char) -> (r: bool) ensures r == (('A' <= c && c <= 'Z') || ('a' <= c && c <= 'z') || ('0' <= c && c <= '9')) { c.is_ascii_alphanumeric() }
+#[verifier::external_body]
+fn vchar_is_ascii_whitespace(c: char) -> (r: bool) ensures r == (c == ' ' || c == '\x09' || c == '\x0a' || c == '\x0c' || c == '\x0d') { c.is_ascii_whitespace() }
